@@ -325,6 +325,10 @@ func checkC06(r *Run) {
 			cc.Cut = len(buf) - 1
 			cases = append(cases, cc)
 		}
+		// a last call that brings no new byte (only the no-more-data indication, where the flags have it)
+		cc := cs
+		cc.Cut = len(buf)
+		cases = append(cases, cc)
 	}
 	parallelFor(r, len(cases), func(c *enumCtx, i int) {
 		cs := cases[i]
